@@ -298,11 +298,9 @@ func c16Concurrent(c *Ctx) {
 			ix := regions.NewIndex(starts, ends)
 			k.Input("starts", starts)
 			k.Input("ends", ends)
-			// sequential answers before the concurrent phase
-			before := map[int][]int{}
-			for q := -2; q <= 262; q++ {
-				before[q] = append([]int{}, ix.At(q)...)
-			}
+			// No At call before the goroutines start: the very first queries of
+			// every piece of the index happen concurrently (lazily built state
+			// would be written there). Expected answers come from the scan.
 			var inflight, maxInflight, overlapped atomic.Int64
 			var hist [G + 1]atomic.Int64
 			var mu sync.Mutex
@@ -353,8 +351,8 @@ func c16Concurrent(c *Ctx) {
 			}
 			// later answers unchanged
 			for q := -2; q <= 262; q++ {
-				if got := ix.At(q); !sameInts(got, before[q]) {
-					k.Failf("concurrent-changed-answers", "after concurrent use At(%d) = %v, before %v", q, got, before[q])
+				if got, want := ix.At(q), refAt(starts, ends, q); !sameInts(got, want) {
+					k.Failf("concurrent-changed-answers", "after concurrent use At(%d) = %v, want %v", q, got, want)
 					return
 				}
 			}
